@@ -8,21 +8,21 @@ import sys
 sys.path.insert(0, '/verif')
 MARK = " Functions under contract on the current tree (generated from contracts/): "
 ADDED = {
-    "C01": "Later additions: constructors leave unspecified slots Undefined; an unchecked ListSelector accepts every list and admits each unknown object once; class-level assignment and Parameters._update carried.",
+    "C01": "Later additions: Parameters.self_or_cls and get_param_descriptor (which object / which Parameter an update and a class-level assignment go through), constructors leave unspecified slots Undefined; an unchecked ListSelector accepts every list and admits each unknown object once; class-level assignment and Parameters._update carried.",
     "C02": "Later additions: Dynamic.__set__ (a generator/callable value is stored only after validation), Parameters._update (exceptional frame of the batch route: flags restored, queued events of the failed call dropped), the C08/C10 link clauses of the setter on the raising paths.",
     "C03": "Later additions: Parameters._update (every accepted change of a multi-parameter update is announced by the time the call returns or raises), the public batching managers and trigger (queue order, no event lost), Comparator probes, and the clause that a class-level copy of an inherited Parameter shares the watcher table of the Parameter it was copied from.",
-    "C04": "Later additions: the quick tier of the C03 bounded layer is carried for update/batch contexts opened inside watchers, trigger re-assigns exactly the value values() reports (union-dict model), coalescing through the _update_event_type callee contract, the flush probe.",
+    "C04": "Later additions: Parameters.self_or_cls; the quick tier of the C17 bounded layer is carried for batches on copies; the quick tier of the C03 bounded layer is carried for update/batch contexts opened inside watchers, trigger re-assigns exactly the value values() reports (union-dict model), coalescing through the _update_event_type callee contract, the flush probe.",
     "C06": "Later additions: the quick tier of the C17 bounded layer is carried for watch=True methods on copies, the metaclass dependency table (block contract in ParameterizedMetaclass.__init__: inherited entries kept unless overridden), one iteration of _update_deps, _sync_caller, the dispatcher contracts and Parameters._update.",
     "C07": "Later additions: the dispatch loop of Parameter.__set__ (every watcher of the snapshot is called, carried from C03), one iteration of Parameters._update_deps (old sub-object watchers removed before the new ones are installed, for any number of watchers), _sync_caller, dispatcher contracts.",
     "C08": "Later additions: _update_ref unwatches through the namespace of the object the watcher was registered on (its instance unless None, whatever its truth value), _syncing (the set of names being synced is swapped and restored on every exit), Parameters.update (links handed to the restorer for mapping and keywords alike), resolve_value on lists of any length (every item resolved; recursive call by contract; assumption A-RV), the constructor link clause, and the probe on bind's generated dependency keywords.",
     "C09": "Later additions: Comparator.compare_iterator/compare_mapping (a genuine change of a container value is never suppressed; carried from C03), resolve_value on lists of any length (every item is resolve_value(item); a container handed back as it is must contain only items that resolve to themselves, assumption A-RV).",
     "C10": "Later additions: the constructor link clause of _setup_params (a reference without parameter dependencies is still recorded), _syncing restores on exceptions.",
     "C11": "Later additions: Parameter.__init__ and five constructors (what a declaration leaves unspecified stays Undefined), add_parameter, the re-validation and type-change blocks of __param_inheritance, and the block installing the merged slot values (an inherited mutable container is the Parameter's own copy before _update_state may mutate it).",
-    "C12": "Later additions: _instantiate_param (deep copy whatever the outer type), the metaclass __setattr__ copy-on-write, the class parameter table, and the slot-installation block of __param_inheritance (no crosstalk with the ancestor's containers).",
+    "C12": "Later additions: Parameters.self_or_cls (the instance whenever there is one, whatever its truth value), get_param_descriptor, _instantiate_param (deep copy whatever the outer type), the metaclass __setattr__ copy-on-write, the class parameter table, and the slot-installation block of __param_inheritance (no crosstalk with the ancestor's containers).",
     "C13": "Later additions: get_param_descriptor (the nearest declaring class of an arbitrary class list), the metaclass __setattr__ slot-copying loop, get_value_generator for Dynamic parameters, the class parameter table and its cache clearing, add_parameter.",
     "C14": "Later additions: the class-level route (metaclass __setattr__: every plain value reaches the descriptor exactly once; get_param_descriptor), edit_constant (every flag restored on every exit, for any number of parameters), Parameters.__getitem__ (instance-level copy keeps constant/readonly), Parameter.__init__ (readonly implies constant), the setter's link clauses.",
     "C15": "Later additions: the four object loops of serialize/deserialize_parameters (every parameter visited once, no value lost), get_value_generator.",
-    "C05": "Later additions: the quick tier of the C07 bounded layer is carried for failing watch=True methods (a raising method leaves the dynamic watchers re-registered).",
+    "C05": "Later additions: Event.__set__ (the event is reset exactly once on every exit, whatever exception type the inherited setter or a watcher raises), the quick tier of the C07 bounded layer is carried for failing watch=True methods (a raising method leaves the dynamic watchers re-registered).",
     "C17": "Later additions: the _InstancePrivate round trip from an ARBITRARY dispatch state of the original (the copy starts idle), the tail of Parameterized.__setstate__ (every pickled slot restored, watchers re-created with all fields), Parameterized.__getstate__ (fresh containers, nothing shared with the live object).",
     "C18": "Later additions: ghost-handle variants (a stale ListProxy handle), unnamed objects admitted by unchecked Selectors, the Selector validators.",
     "C19": "Later additions: the failing-generator path, _state_push/_state_pop pairing, get_value_generator.",
